@@ -189,7 +189,7 @@ Fixpoint wf_sb (n : snode) : bool :=
   match n with
   | SSrc _ | SIter _ => true
   | SMap _ x | SFilter _ x | SFilterMap _ x | SInspect x | SWeaken x | SUnique x
-  | SAntiJoin x _ | SFlatMap _ _ x => wf_sb x
+  | SAntiJoin x _ | SFlatMap _ _ x | SDifference x _ | SPart _ _ x => wf_sb x
   | SEnumerate x | SGen _ _ x => ord x && wf_sb x
   | SUnion x y | SJoin x y | SCross x y => wf_sb x && wf_sb y
   | SJoinHalf x y => bounded_s y && (wf_sb x && wf_sb y)
